@@ -6,7 +6,8 @@ import TbotVerif.Spec.Env
            `[?` = the block is wrapped in try/except)                       (all strings in hex)
     obs:   one token per executed step `<kind>=<val>/<written>/<pieces>` and a final `end:<outcome>`;
            val = `ok` | `s:<text>` | `f:<letters>` | `v:<value>` / `v:!` | `rc:<status>:<text>:<argv|!>` | `err:<tag>`
-    `env <case…> || <obs…>` replays the fragmentation found in the observation on the model. -/
+    `env <case…> || <obs…>` replays the fragmentation found in the observation on the model;
+    `envwf <case…>` says whether the case is in the domain of the theorems (`Env.Case.wf`). -/
 namespace Driver.Env
 open _root_.Env
 
@@ -140,6 +141,11 @@ def handle (toks : List String) : Option String :=
       else match allObsOf ot with
         | some os => allObsStr (run c (oracleOf os.1))
         | none => allObsStr (run c []))
+  | "envwf" :: rest =>
+    -- is the case in the domain of `C09.spec_holds`?
+    some (match caseOf rest with
+    | some c => if c.wf then "1" else "0"
+    | none => "bad-op")
   | "spec" :: "C09" :: rest =>
     let (ct, ot) := splitAt2 rest "||"
     some (match caseOf ct, allObsOf ot with
